@@ -197,7 +197,10 @@ class MarkerExpression(SingleMarker):
                 rhs = normalize_name(rhs)
         if isinstance(rhs, str):
             try:
-                spec = Specifier(f"{self.op}{rhs}")
+                # self.op is stored for `name op value`; with the literal on the
+                # left the comparison actually made is `value reflect(op) name`
+                op = get_reflect_op(self.op) if self.reversed else self.op
+                spec = Specifier(f"{op}{rhs}")
             except InvalidSpecifier:
                 pass
             else:
